@@ -80,6 +80,7 @@ var bufKnob = []int{0, 0, 4096, 64, 7, 3, 2, 1}
 func drawLists(ch *core.Chooser, hosts []string, kinds []int, maxLists, minLines, maxLines int, fileMode int) []disk.ListPlan {
 	var ids []int
 	var plans []disk.ListPlan
+	kinds = workload.SwarmKinds(ch, kinds)
 	pct := []int{80, 90, 95, 97}[ch.Intn("list.linespct", 4)]
 	for i := 0; i < maxLists; i++ {
 		if i == 0 {
